@@ -128,6 +128,7 @@ class Ctx:
         bin_ = os.path.join(CACHE, "extract")
         self.go_build("./extract", bin_)
         for n in names:
+            os.makedirs(os.path.join(LEAN, "GqlgenVerif", "Gen"), exist_ok=True)
             target = os.path.join(LEAN, "GqlgenVerif", "Gen", n + ".lean")
             if os.path.exists(target):
                 os.remove(target)
